@@ -283,7 +283,8 @@ impl Jsonify for Value {
       Value::Number(value) => value.jsonify(),
       Value::Null(_) => "null".to_string(),
       Value::String(s) => json_string(s),
-      _ => format!("jsonify not implemented for: {}", self),
+      // the other values have no counterpart in `JSON`, their text is given as `JSON` string
+      _ => json_string(&self.to_string()),
     }
   }
 }
